@@ -178,6 +178,8 @@ pub fn scenario(g: &mut G, ctx: &RunCtx) -> RunReport {
     let script = Script::from_wire(&wire, &segs, End::Fin);
     let faults = ConnFaults { window: 65536, coalesce: g.chance(1, 4), ..Default::default() };
     let use_split = g.chance(1, 3);
+    // the status helpers must agree with the code itself
+    let use_efs = g.chance(1, 4);
     let ran = bodyx::run_origin(&script, &faults, ctx, || {
         let mut rb = attohttpc::get(format!("http://{}/h", bodyx::HOST_IP)).follow_redirects(false);
         if let Some(m) = max_headers {
@@ -186,6 +188,26 @@ pub fn scenario(g: &mut G, ctx: &RunCtx) -> RunReport {
         match rb.send() {
             Err(e) => Err(err_kind(&e)),
             Ok(resp) => {
+                let succ = resp.is_success();
+                let code = resp.status().as_u16();
+                if succ != (200..300).contains(&code) {
+                    return Err(format!("helper:is_success()={} for status {}", succ, code));
+                }
+                let resp = if use_efs {
+                    match resp.error_for_status() {
+                        Ok(r) if succ => r,
+                        Ok(_) => return Err(format!("helper:error_for_status() returned Ok for status {}", code)),
+                        Err(e) => {
+                            let k = format!("{:?}", e.kind());
+                            if succ || !k.contains(&code.to_string()) {
+                                return Err(format!("helper:error_for_status() returned Err({}) for status {}", k, code));
+                            }
+                            return Ok((code, Vec::new(), usize::MAX));
+                        }
+                    }
+                } else {
+                    resp
+                };
                 let (st, headers) = if use_split {
                     let (s, h, _r) = resp.split();
                     (s, h)
@@ -208,6 +230,7 @@ pub fn scenario(g: &mut G, ctx: &RunCtx) -> RunReport {
     let verdict = match &ran.observed {
         None => violation("hang", "torn down"),
         Some(Err(m)) => violation("panic", m.clone()),
+        Some(Ok(Err(e))) if e.starts_with("helper:") => violation("status-helper-disagrees", e.clone()),
         Some(Ok(Err(e))) => {
             if over {
                 Verdict::Pass
@@ -218,6 +241,9 @@ pub fn scenario(g: &mut G, ctx: &RunCtx) -> RunReport {
         Some(Ok(Ok((st, got, n)))) => {
             if over {
                 violation("header-limit-not-enforced", format!("{} fields accepted with max_headers={}", nfields, limit))
+            } else if *n == usize::MAX && *st == status {
+                // error_for_status() consumed the response of a non-success status: nothing more to compare
+                Verdict::Pass
             } else if *st != status {
                 violation("status-mismatch", format!("status {} reported, {} sent (status line {:?})", st, status, short(&wire[..wire.len().min(40)])))
             } else {
